@@ -56,7 +56,7 @@ class Fn(Model):
 
 
 def build(tier, seed):
-    plan = Plan("C23", level="proof")
+    plan = Plan("C23", level="other")        # every obligation is size-bounded (all values, enumerated shapes): not a proof of the unbounded statement
     plan.explanation = ("(A) __call_tapes + _batch_postprocessing + _apply_postprocessing_stack executed from the real AST with "
                         "uninterpreted tape transforms / post-processing functions for every enumerated fan-out table; the composed "
                         "post-processing applied to symbolic results equals the by-hand stage-by-stage composition (EUF). "
